@@ -16,6 +16,7 @@
 #include <sstream>
 #include <string>
 #include <vector>
+#include <pthread.h>
 #include <sys/mman.h>
 #include <sys/resource.h>
 #include <sys/stat.h>
@@ -273,6 +274,15 @@ inline void child_limits(size_t asBytes) {
   rl.rlim_cur = rl.rlim_max = 0; setrlimit(RLIMIT_CORE, &rl);
 }
 
+// Runs fn on a thread with a large stack (deeply recursive reference interpreters must not be what overflows).
+inline void on_big_stack(const std::function<void()> &fn, size_t bytes = (size_t)1 << 30) {
+  pthread_attr_t at; pthread_attr_init(&at); pthread_attr_setstacksize(&at, bytes);
+  pthread_t th;
+  auto tramp = [](void *p) -> void * { (*static_cast<const std::function<void()> *>(p))(); return nullptr; };
+  if (pthread_create(&th, &at, tramp, (void *)&fn) != 0) { fn(); return; }
+  pthread_join(th, nullptr);
+}
+
 inline RunResult run_chunks(const Ctx &ctx, const std::string &label, uint64_t total, uint64_t nchunks, ChunkBody body, Describe describe,
                             double hangSeconds = 20.0, size_t asBytes = (size_t)6 << 30, const std::string &crashSigPrefix = "") {
   RunResult rr;
@@ -300,7 +310,7 @@ inline RunResult run_chunks(const Ctx &ctx, const std::string &label, uint64_t t
       child_limits(asBytes);
       uint64_t b, e; bounds(ch, b, e);
       Stats st;
-      body(b, e, skip, st, &slots[w].cur);
+      on_big_stack([&] { body(b, e, skip, st, &slots[w].cur); });
       st.save(j.file);
       _exit(0);
     }
